@@ -612,13 +612,10 @@ impl AdvancedStringVec {
             return Some((pos, new.len()));
         }
 
-        // Check for prefix overlap (existing string ends with prefix of new string)
-        for overlap_len in (min_overlap..existing.len().min(new.len())).rev() {
-            if existing[existing.len() - overlap_len..] == new[..overlap_len] {
-                // Found overlap - new string can extend from existing
-                return Some((existing.len() - overlap_len, new.len()));
-            }
-        }
+        // A partial overlap (existing string ends with a prefix of the new string) cannot be used:
+        // the entry records (offset, new.len()) and nothing appends the rest of the new string, so
+        // the bytes behind the overlap would be whatever follows in the arena (or lie past its end).
+        let _ = min_overlap;
 
         None
     }
